@@ -360,3 +360,81 @@ func TestF18NilMarshalersOption(t *testing.T) {
 		t.Error(err)
 	}
 }
+
+// F15: a caller-held coder is used again after a MarshalEncode/UnmarshalDecode call that was
+// given a per-call AllowDuplicateNames different from the coder's own and failed inside an
+// object: the library panicked with index errors instead of returning errors.
+type f15FailWriter struct{ n int }
+
+func (f *f15FailWriter) Write(p []byte) (int, error) {
+	if f.n >= len(p) {
+		f.n -= len(p)
+		return len(p), nil
+	}
+	n := f.n
+	f.n = 0
+	return n, errors.New("write fault")
+}
+
+func f15NoPanic(t *testing.T, what string, fn func()) {
+	t.Helper()
+	defer func() {
+		if r := recover(); r != nil {
+			t.Errorf("%s: library panicked: %v", what, r)
+		}
+	}()
+	fn()
+}
+
+func TestF15ReuseAfterFailedCallWithOtherDuplicateNames(t *testing.T) {
+	// (a) encoder allows duplicates, the failing call does not: stale name offset
+	e := jsontext.NewEncoder(&f15FailWriter{n: 43}, jsontext.AllowDuplicateNames(true))
+	e.WriteToken(jsontext.BeginObject)
+	e.WriteToken(jsontext.String("p0"))
+	e.WriteToken(jsontext.BeginArray)
+	v := struct {
+		A   map[string]int
+		B   []any
+		Bad any
+	}{map[string]int{"k": 1}, []any{1.0, map[string]any{"q": nil}}, "fine"}
+	if err := json.MarshalEncode(e, v, json.Deterministic(true), jsontext.EscapeForHTML(true), jsontext.AllowDuplicateNames(false)); err == nil {
+		t.Fatal("the write fault was not reported")
+	}
+	f15NoPanic(t, "WriteToken after failed MarshalEncode", func() { e.WriteToken(jsontext.String("n")) })
+	f15NoPanic(t, "StackPointer after failed MarshalEncode", func() { _ = e.StackPointer() })
+
+	// (b) decoder rejects duplicates, the failing call allows them: namespace stack too short
+	d := jsontext.NewDecoder(bytes.NewReader([]byte(`{"p0":{"A":"a","Bad":"str","Z":{"after":[1]}},"q":[2]}`)))
+	d.ReadToken()
+	d.ReadToken()
+	var tgt struct {
+		A   string
+		Bad int
+	}
+	if err := json.UnmarshalDecode(d, &tgt, jsontext.AllowDuplicateNames(true)); err == nil {
+		t.Fatal("the type mismatch was not reported")
+	}
+	f15NoPanic(t, "reads after failed UnmarshalDecode", func() {
+		for i := 0; i < 12; i++ {
+			if _, err := d.ReadToken(); err != nil {
+				break
+			}
+		}
+	})
+
+	// (c) encoder rejects duplicates, the failing call allows them
+	var buf bytes.Buffer
+	e = jsontext.NewEncoder(&buf)
+	e.WriteToken(jsontext.BeginObject)
+	e.WriteToken(jsontext.String("p0"))
+	m := map[string]any{"a": map[string]any{"bad": make(chan int)}}
+	if err := json.MarshalEncode(e, m, jsontext.AllowDuplicateNames(true)); err == nil {
+		t.Fatal("the unsupported value was not reported")
+	}
+	f15NoPanic(t, "closing tokens after failed MarshalEncode", func() {
+		for i := 0; i < 4; i++ {
+			e.WriteToken(jsontext.Null)
+			e.WriteToken(jsontext.EndObject)
+		}
+	})
+}
